@@ -105,6 +105,9 @@ func GenInst(t *rapid.T, o GenOpts, kind string, allowFire bool) Inst {
 		in.Abort = GenConds(t, "a", o.RichErrors, 2)
 		in.ReturnLast = rapid.Bool().Draw(t, "returnLast")
 		in.MaxDuration = rapid.SampledFrom([]string{"", "", "", "1ns", "1h"}).Draw(t, "maxDuration")
+		if o.CancelOneIn > 0 {
+			in.CancelInScheduled = rapid.IntRange(1, 2*o.CancelOneIn).Draw(t, "cancelInScheduled") == 1
+		}
 	case "breaker":
 		in.CB = genBreakerCfg(t)
 		in.Conds = GenConds(t, "h", o.RichErrors, 3)
@@ -183,6 +186,7 @@ func GenScenario(t *rapid.T, o GenOpts) Scenario {
 		usedFire = true
 		for i := range sc.Pool {
 			sc.Pool[i].FbCancel = false // one cancellation source per execution: the timeout
+			sc.Pool[i].CancelInScheduled = false
 		}
 		sc.Pool = append(sc.Pool, Inst{Kind: "timeout", Fire: true})
 		at := rapid.IntRange(0, len(sc.Stack)).Draw(t, "fireAt")
